@@ -130,6 +130,7 @@ def run(rep: vk.Report):
     entries = 0
     special = {"0": 0, "+1e16": 0, "-1e16": 0}
     path_diffs = 0
+    stacked = 0
     paths = {}
     fixed = common.vectorised_worklist()
     for i in range(n + len(fixed)):
@@ -162,6 +163,12 @@ def run(rep: vk.Report):
                 hf = AD.compile_hessian(e, V)
                 gf0 = C.compile_gradient(e + 0, V)          # same derivative trees through the general path
                 hf0 = AD.compile_hessian(e + 0, V)
+                # the same row inside STACKS that mix it with rows whose Jacobian is constant (linear rows), in every position
+                lin1 = sum((float(k + 2) * v for k, v in enumerate(V[1:])), 2.0 * V[0]) + 1.0
+                lin2 = V[-1] * 5.0 - 3.0
+                layout = r.choice([("e", "lin1"), ("lin1", "e"), ("lin1", "e", "lin2"), ("lin1", "lin2", "e"), ("e", "lin1", "e"), ("lin2", "e", "e", "lin1")])
+                rows_ = {"e": e, "lin1": lin1, "lin2": lin2}
+                jstack = AD.compile_jacobian([rows_[k] for k in layout], V)
             except Exception as ex:
                 rep.violation({"kind": "exception", "obligation": "derivative callables can be built", "expr": te[:2000], "error": repr(ex)[:300]},
                               concrete=True)
@@ -185,6 +192,28 @@ def run(rep: vk.Report):
                     rep.violation({"kind": "exception", "obligation": "derivative callables are total at finite points", "expr": te[:2000],
                                    "point": pt, "error": repr(ex)[:300]}, concrete=True)
                     continue
+                try:
+                    JS = np.asarray(jstack(x), dtype=float)
+                except Exception as ex:
+                    rep.violation({"kind": "exception", "obligation": "derivative callables are total at finite points", "expr": te[:2000],
+                                   "point": pt, "error": repr(ex)[:300]}, concrete=True)
+                    continue
+            stacked += 1
+            for k_, nm_ in enumerate(layout):
+                if nm_ != "e":
+                    continue
+                row = JS[k_]
+                bad_row = (not np.all(np.isfinite(row))) or any(
+                    (u != w) if (abs(u) in (0.0, LARGE) or abs(w) in (0.0, LARGE)) else abs(u - w) > 1e-9 * max(1.0, abs(u), abs(w))
+                    for u, w in zip(row, J) if np.isfinite(u) and np.isfinite(w))
+                if bad_row:
+                    nonfinite += 1
+                    rep.violation({"kind": "nonfinite", "obligation": "a row of a stacked Jacobian is the (sanitised) single-row Jacobian of that expression",
+                                   "witness": {"expr": repr(e)[:300], "V": names, "point": pt, "stack_layout": list(layout), "row_index": k_,
+                                               "row_in_stack": row.tolist(), "single_row": J.tolist(), "path": jstack.__name__}}, concrete=True)
+                    break
+            with np.errstate(all="ignore"):
+                pass
             for what, arr in (("compile_gradient", G), ("compile_jacobian", J), ("compile_hessian", H)):
                 entries += arr.size
                 if not np.all(np.isfinite(arr)):
@@ -252,6 +281,7 @@ def run(rep: vk.Report):
     cov["samples"] = [x_[:300] for x_ in nums[:3]]
     cov["sanitiser_arrays"] = len(scases)
     cov["sanitiser_disagreements"] = len(sfails)
+    cov["stacked_jacobians_checked"] = stacked
     cov["entries_checked"] = entries
     cov["nonfinite_outputs"] = nonfinite
     cov["special_value_counts"] = special
